@@ -107,9 +107,12 @@ class FoldUnit:
 
         for h in hyps:
             kind = h['kind']
-            if kind == 'pin':            # value produced by instruction named n is the constant c
-                k = defline(h['n'])
-                replace_uses(h['n'], str(h['value']), {k})
+            if kind == 'pin':            # value produced by instruction named n (or the parameter n) is the constant c
+                if h.get('param'):
+                    replace_uses(h['n'], str(h['value']), {0})
+                else:
+                    k = defline(h['n'])
+                    replace_uses(h['n'], str(h['value']), {k})
             elif kind == 'site':         # no hypothesis: only carries the site marker
                 pass
             elif kind == 'before_call':  # assume(len [+ sum var*scale] > room) immediately before the nth call to callee, then the site marker
